@@ -61,8 +61,8 @@ def gen(rng, scenario, tier):
     if k == "batch":
         d = adapters.n_features(rng, name)
         bs, _ = workload.batches(rng, rng.randint(5, 10), d, 6, 20, drift_rate=0.5, integer=(name != "NNDVI" and rng.random() < 0.3))
-        for b in bs:
-            ev.append([b, rng.choice(CONTAINERS if d > 1 else CONTAINERS[:4]), np_seed(rng)])
+        for j, b in enumerate(bs):
+            ev.append([b, rng.choice(CONTAINERS if d > 1 else CONTAINERS[:4]), np_seed(rng)] + (["ref"] if (j > 0 and rng.random() < 0.12) else []))
     elif k == "y":
         ys, _ = workload.outcomes(rng, rng.randint(15, 40), burst=0.1)
         for y in ys:
@@ -150,7 +150,9 @@ def _run_history(ctx, name, cfg, k, events, scribble_at, base=None):
     trace = []
     drift_after_scribble = False
     scribbled = False
-    for i, (values, tag, seed) in enumerate(events):
+    for i, ev in enumerate(events):
+        values, tag, seed = ev[:3]
+        is_ref = k == "batch" and (i == 0 or (len(ev) > 3 and ev[3] == "ref"))
         ctx.step = i
         if k == "y":
             objs = [make_y(values[0], tag), make_y(values[1], tag)]
@@ -161,7 +163,7 @@ def _run_history(ctx, name, cfg, k, events, scribble_at, base=None):
         try:
             if k == "y":
                 det.update(objs[0], objs[1])
-            elif k == "batch" and i == 0:
+            elif is_ref:
                 det.set_reference(objs[0])
             else:
                 det.update(objs[0])
@@ -177,7 +179,7 @@ def _run_history(ctx, name, cfg, k, events, scribble_at, base=None):
         for o, sn in zip(objs, snaps):
             if not unchanged(sn, o):
                 ctx.violation("mutated", f"C15:{name}:{tag}:input_modified",
-                              f"call {i}: the {tag} object passed to {'set_reference' if (k == 'batch' and i == 0) else 'update'} was modified by the call; cfg={cfg}")
+                              f"call {i}: the {tag} object passed to {'set_reference' if is_ref else 'update'} was modified by the call; cfg={cfg}")
                 raise EndRun()
         obs = canon(adapters.observe(det))
         trace.append(obs)
@@ -194,7 +196,7 @@ def _run_history(ctx, name, cfg, k, events, scribble_at, base=None):
                 scribble(o)
             scribbled = True
             ctx.fault("scribble_after_call")
-        ctx.state(name, tag, "set_reference" if (k == "batch" and i == 0) else "update", "drift" in obs)
+        ctx.state(name, tag, "set_reference" if is_ref else "update", "drift" in obs)
     return trace, drift_after_scribble
 
 
